@@ -55,6 +55,9 @@ class Replica(Engine):
                 create['data']['rows'] = 0
             else:
                 create['shape'][0] = 0
+        if ragged and create.get('items') and rng.random() < 0.15:
+            for it in create['items']:
+                it['rows'] = 0          # subarrays, but no values
         ops = [create]
         for _ in range(rng.choice([0, 0, 1, 2, 3])):
             ops.append(G.gen_op(rng))
@@ -313,6 +316,8 @@ class _Run:
         if old is not None and not op['overwrite']:
             if exc is None:
                 raise Viol('replica.archive', 'existing_replaced_without_overwrite', '')
+            if not os.path.exists(target):
+                raise Viol('replica.archive', 'existing_removed_by_refused_call', '')
             with open(target, 'rb') as f:
                 if f.read() != old:
                     raise Viol('replica.archive', 'existing_modified_by_refused_call', '')
@@ -346,6 +351,21 @@ class _Run:
             raise Viol('replica.archive', f'extracted_unopenable:{type(e).__name__}', str(e)[:200])
         import shutil
         shutil.rmtree(ex)
+        # a second call without overwrite is refused and leaves the archive it just wrote untouched
+        with open(target, 'rb') as f:
+            first = f.read()
+        exc2 = None
+        try:
+            st.h.archive(filepath=target if op.get('explicit') else None, compressiontype=ctype, overwrite=False)
+        except Exception as e:   # noqa
+            exc2 = e
+        if exc2 is None:
+            raise Viol('replica.archive', 'second_call_replaced_without_overwrite', '')
+        if not os.path.exists(target):
+            raise Viol('replica.archive', 'existing_removed_by_refused_call', 'second archive() on the same object')
+        with open(target, 'rb') as f:
+            if f.read() != first:
+                raise Viol('replica.archive', 'existing_modified_by_refused_call', 'second archive() on the same object')
         self.probe('archive_extracted')
         self.probe('archive:' + ctype)
         if old is not None:
